@@ -1483,9 +1483,12 @@ class Converter:
                 as_bool = ta.base_type_is_bool(typeinfo)
                 self._bind(x.arg, values.AttrRef(attr, as_bool, self._source_of(x)))
             else:
-                onnx_parameter = make_value(x.arg, typeinfo, self._source_of(x))
+                # Parameters of a nested function become inputs of a subgraph: like every other
+                # value they need a name that is unique across the whole function.
+                onnx_name = x.arg if not self._outer else self._generate_unique_name(x.arg)
+                onnx_parameter = make_value(onnx_name, typeinfo, self._source_of(x))
                 self._current_fn.append_parameter(onnx_parameter)
-                self._used_vars.add(x.arg)
+                self._used_vars.add(onnx_name)
                 self._bind(
                     x.arg,
                     values.SymbolValue(onnx_parameter, self._source_of(x)),
